@@ -1013,7 +1013,7 @@ func packCase(sp *spec) {
 		parseErr                   error
 		manifestPushes, blobPushes int
 	}
-	project := func(rec *recorder, desc ocispec.Descriptor, err error, t0, t1 time.Time) projection {
+	project := func(rec *recorder, desc ocispec.Descriptor, err error, t0, t1 time.Time, withDigest bool) projection {
 		kind := errKind(err)
 		var evs []string
 		manifestPushes, blobPushes := 0, 0
@@ -1072,12 +1072,22 @@ func packCase(sp *spec) {
 				size := desc.Size + int64(len(shown)-len(stored))
 				obs = fmt.Sprintf("OK %s:%s:%s %s EV %s SIZE %d BYTES %s", common.Hex(desc.MediaType), common.Hex(desc.ArtifactType),
 					showAnn(maskNow(desc.Annotations, key, hadCreated, t0, t1)), got.String(), ev, size, common.Hex(string(shown)))
+				// the digest: the descriptor's own, or -- when the clock's value was masked -- that of the shown bytes
+				dg := "-"
+				if withDigest {
+					dg = common.Hex(string(desc.Digest))
+					if len(shown) != len(stored) || !bytes.Equal(shown, stored) {
+						dg = common.Hex(sha(shown))
+					}
+				}
+				obs += " DIGEST " + dg
 			}
 		}
 
 		return projection{obs, got, gotMT, stored, parseErr, manifestPushes, blobPushes}
 	}
-	pr := project(rec, desc, err, t0, t1)
+	withDigest := run.Evaluations%40 == 0 // the modelled SHA-256 is slow: a sample
+	pr := project(rec, desc, err, t0, t1, withDigest)
 	obs, got, gotMT, stored, parseErr := pr.obs, pr.got, pr.gotMT, pr.stored, pr.parseErr
 	manifestPushes, blobPushes := pr.manifestPushes, pr.blobPushes
 	b01 := func(x bool) string {
@@ -1086,16 +1096,19 @@ func packCase(sp *spec) {
 		}
 		return "0"
 	}
-	modelLine := func(failAt int, entries []string) string {
+	modelLine := func(failAt int, entries []string, withDigest bool) string {
 		fa := "-"
 		if failAt >= 0 {
 			fa = strconv.Itoa(failAt)
+		}
+		if withDigest {
+			fa += "d"
 		}
 		return fmt.Sprintf("K %s %s %s %s %s %s %s %s %s %s %s %s", sp.Fn, b01(sp.Exists), keyKind(sp.Target), fa,
 			common.Hex(sp.AT), showODesc(sp.Subject), showList(sp.Layers, sp.LayersNil), showAnn(sp.Ann), showODesc(sp.Config),
 			showAnn(sp.ConfigAnn), strings.Join(append([]string{"S"}, entries...), ","), common.Hex(specJSON(sp)))
 	}
-	model := modelLine(sp.FailAt, storeEntries)
+	model := modelLine(sp.FailAt, storeEntries, withDigest)
 	run.Case(id, model, obs)
 	run.Count("fn_" + sp.Fn)
 	run.Count("target_" + sp.Target + map[bool]string{true: "+exists", false: ""}[sp.Exists])
@@ -1251,8 +1264,8 @@ func packCase(sp *spec) {
 		}
 		t2 := time.Now()
 		d2, err2 := callPack(sp, p2)
-		pr2 := project(rec2, d2, err2, t2, time.Now())
-		run.Case(run.NewID(), modelLine(-1, entries2), pr2.obs)
+		pr2 := project(rec2, d2, err2, t2, time.Now(), withDigest)
+		run.Case(run.NewID(), modelLine(-1, entries2, withDigest), pr2.obs)
 		run.Count("history_second_call")
 		if err2 == nil && (sp.Target == "memory" || sp.Target == "oci") {
 			// idempotence on content-addressed stores: nothing is stored anew by the repeat
